@@ -180,6 +180,7 @@ def e2e_cases(thorough):
         for variant in range(4 if thorough else 2):
             for task in ('ranking', 'identify_rare_values'):
                 out.append({'n_rows': n_rows, 'minibatch_size': mb, 'variant': variant, 'task': task, 'threshold': 1 + variant % 2})
+                out.append({'n_rows': n_rows, 'minibatch_size': mb, 'variant': variant, 'task': task, 'threshold': 1 + variant % 2, 'via_cli': True})
     return out
 
 
